@@ -1,7 +1,7 @@
 (* CompileTop.v — compile_routine (preprocessing + _compile at D = expr), the
    computed input_params, evaluate, and the comparison functions used by the
    case files.  Definitions only. *)
-From Coq Require Import List String Ascii QArith ZArith Bool.
+From Coq Require Import List String Ascii QArith ZArith Bool Qminmax.
 From Bq Require Import Expr StdSem RepModel Routine Compile Preprocess Compare.
 Import ListNotations.
 Open Scope string_scope.
@@ -63,7 +63,7 @@ Fixpoint evaluate (s : env) (t : ctree expr) : result (ctree expr) :=
                      | [] => Ok []
                      | k :: l' => do k' <- evaluate s k; do r <- go l'; Ok (k' :: r)
                      end) kids;
-      Ok (CT n ty ins sp ports' res' conns rep' cstrs' kids')
+      Ok (CT n ty ins (sort_dedup (filter (fun x => negb (mem x (keys s))) sp)) ports' res' conns rep' cstrs' kids')
   end.
 
 (* ---------- observables of an implementation run, as the case files state them ---------- *)
@@ -170,3 +170,146 @@ Fixpoint dbg_params (fuel : nat) (path : string) (a b : ctree expr) : list (stri
                               | None => []
                               end) (ct_children a)
   end.
+
+
+(* ---------- user-supplied function implementations (functions_map) ---------- *)
+(* an implementation is given as parameter names and a body; every call f(args) is
+   replaced by the body with the (already processed) arguments substituted *)
+Definition fimpl := (string * (list string * expr))%type.
+
+Fixpoint apply_funs (fm : list fimpl) (e : expr) : expr :=
+  match e with
+  | ENum _ | ESym _ => e
+  | EOp (OFun f) args =>
+      let args' := map (apply_funs fm) args in
+      match lookup f fm with
+      | Some (ps, body) => if Nat.eqb (List.length ps) (List.length args') then subst (combine ps args') body
+                           else EOp (OFun f) args'
+      | None => EOp (OFun f) args'
+      end
+  | EOp o args => EOp o (map (apply_funs fm) args)
+  | EBig k i b lo hi => EBig k i (apply_funs fm b) (apply_funs fm lo) (apply_funs fm hi)
+  end.
+
+Fixpoint map_tree (f : expr -> expr) (t : ctree expr) : ctree expr :=
+  match t with
+  | CT n ty ins sp ports res conns rep cstrs kids =>
+      CT n ty ins sp
+         (map (fun p => (fst p, (fst (snd p), f (snd (snd p))))) ports)
+         (map (fun p => (fst p, (fst (snd p), f (snd (snd p))))) res)
+         conns rep cstrs (map (map_tree f) kids)
+  end.
+
+(* ---------- comparisons used by the evaluation streams ---------- *)
+
+Definition cmpQ_rel (tol : Q) (a b : option Q) : nat :=
+  match a, b with
+  | Some x, Some y =>
+      if Qeq_bool x y then 0%nat
+      else if Qle_bool (Qabs' (x - y)) (tol * Qmax (Qabs' x) (Qabs' y)) then 0%nat else 1%nat
+  | _, _ => 2%nat
+  end.
+
+(* values of tree a read in environment ra  vs  values of tree b read in environment rb *)
+Fixpoint cmp_trees2 (fuel : nat) (c : option Q -> option Q -> nat) (ra rb : string -> Q) (a b : ctree expr) : list nat :=
+  match fuel with
+  | O => [1%nat]
+  | S f =>
+      let res := flat_map (fun p => match lookup (fst p) (ct_resources b) with
+                                    | Some (_, v) => [c (evalQ ra (snd (snd p))) (evalQ rb v)]
+                                    | None => [1%nat]
+                                    end) (ct_resources a) in
+      let prt := flat_map (fun p => match lookup (fst p) (ct_ports b) with
+                                    | Some (_, v) => [c (evalQ ra (snd (snd p))) (evalQ rb v)]
+                                    | None => [1%nat]
+                                    end) (ct_ports a) in
+      let kids := flat_map (fun k => match find_ct (ct_name k) (ct_children b) with
+                                     | Some k' => cmp_trees2 f c ra rb k k'
+                                     | None => [1%nat]
+                                     end) (ct_children a) in
+      ((if Nat.eqb (List.length (ct_resources a)) (List.length (ct_resources b)) then 0%nat else 1%nat)
+         :: res ++ prt ++ kids)%list
+  end.
+
+(* the environment after an assignment: assigned names read their value at r *)
+Definition env_afterQ (r : string -> Q) (s : env) : option (string -> Q) :=
+  match all_some (map (fun kv => match evalQ r (snd kv) with Some v => Some (fst kv, v) | None => None end) s) with
+  | Some d => Some (fun x => match lookup x d with Some v => v | None => r x end)
+  | None => None
+  end.
+
+Fixpoint params_equal (fuel : nat) (a b : ctree expr) : list nat :=
+  match fuel with
+  | O => [1%nat]
+  | S f => (if str_list_eqb (ct_src_params a) (ct_src_params b) then 0%nat else 1%nat)
+             :: flat_map (fun k => match find_ct (ct_name k) (ct_children b) with
+                                   | Some k' => params_equal f k k'
+                                   | None => [1%nat]
+                                   end) (ct_children a)
+  end.
+
+(* input_params after evaluation = before minus the assigned names, at every node *)
+Fixpoint params_removed (fuel : nat) (ks : list string) (before after : ctree expr) : list nat :=
+  match fuel with
+  | O => [1%nat]
+  | S f => (if str_list_eqb (sort_dedup (filter (fun x => negb (mem x ks)) (ct_src_params before))) (ct_src_params after)
+            then 0%nat else 1%nat)
+             :: flat_map (fun k => match find_ct (ct_name k) (ct_children after) with
+                                   | Some k' => params_removed f ks k k'
+                                   | None => [1%nat]
+                                   end) (ct_children before)
+  end.
+
+(* no symbol of ks occurs in any resource / port of the tree *)
+Fixpoint no_symbols (fuel : nat) (ks : list string) (t : ctree expr) : bool :=
+  match fuel with
+  | O => false
+  | S f => forallb (fun p => forallb (fun x => negb (mem x ks)) (fv (snd (snd p)))) (ct_resources t)
+           && forallb (fun p => forallb (fun x => negb (mem x ks)) (fv (snd (snd p)))) (ct_ports t)
+           && forallb (no_symbols f ks) (ct_children t)
+  end.
+
+Definition is_err (i : impl_result) : bool := match i with IErr _ => true | IOk _ => false end.
+
+(* one evaluation case.
+   compiled : the implementation's compiled tree
+   s        : the assignment (in the order listed), fm : functions_map
+   e1       : implementation's evaluate(compiled, s, fm)
+   e2       : the same with the assignment listed in another order
+   e3       : evaluate in two steps (s = s1 ++ s2, numeric, disjoint)      (IErr "skip" when not exercised)
+   tie  = implementation vs model's evaluate
+   spec = C05 itself, checked on the implementation's own trees *)
+Definition check_eval_case (compiled : ctree expr) (s : env) (fm : list fimpl) (self_ref : bool)
+           (e1 e2 e3 : impl_result) (inexact : bool) (pts : list (list (string * Q))) : list nat * list nat :=
+  let fuel := S (ct_height compiled) in
+  let rs := points_of pts in
+  let model := match evaluate s compiled with Ok m => Ok (map_tree (apply_funs fm) m) | x => x end in
+  let tie :=
+      match model, e1 with
+      | Ok m, IOk t => (flat_map (fun r => cmp_trees2 fuel (cmp inexact) r r m t) rs ++ params_equal fuel m t)%list
+      | res, IErr cls => [if String.eqb (err_class res) cls then 0%nat else 1%nat]
+      | _, IOk _ => [1%nat]
+      end in
+  let spec :=
+      match e1 with
+      | IErr _ => []
+      | IOk t1 =>
+          (* simultaneous: value of the result at r = value of the original at (r after s) *)
+          (flat_map (fun r => match env_afterQ r s with
+                              | Some r' => cmp_trees2 fuel (cmp inexact) r r' t1 (map_tree (apply_funs fm) compiled)
+                              | None => [2%nat]
+                              end) rs
+           (* remaining input parameters are exactly those not assigned *)
+           ++ params_removed fuel (keys s) compiled t1
+           (* order of the assignment is irrelevant *)
+           ++ match e2 with
+              | IOk t2 => (flat_map (fun r => cmp_trees2 fuel (cmp inexact) r r t1 t2) rs ++ params_equal fuel t1 t2)%list
+              | IErr c => if String.eqb c "skip" then [] else [1%nat]
+              end
+           (* several steps = one step with the union *)
+           ++ match e3 with
+              | IOk t3 => (flat_map (fun r => cmp_trees2 fuel (cmp true) r r t1 t3) rs ++ params_equal fuel t1 t3)%list
+              | IErr c => if String.eqb c "skip" then [] else [1%nat]
+              end)%list
+      end in
+  (tie, spec).
